@@ -682,11 +682,24 @@ impl Explorer<'_, '_> {
         // (b) one rule is a class C (or C+) beside string rules of two or more characters (decoys
         //     whose first character lies in C): C is swept alone, the decoys cannot match one character
         let rules = &spec.sets[0].rules;
-        let prefixed: Vec<(char, &Re)> = rules.iter().filter_map(|r| match (&r.ctx, &r.re) { (None, Re::Cat(p, c)) => match &**p { Re::Char(pc) if class_of(c, &env).is_some() => Some((*pc, &**c)), _ => None }, _ => None }).collect();
+        fn pre<'a>(re: &'a Re, env: &crate::re::Env) -> Option<(char, &'a Re, String)> {
+            match re {
+                Re::Cat(p, c) => match (&**p, &**c) {
+                    (Re::Char(pc), c) if class_of(c, env).is_some() => Some((*pc, c, String::new())),
+                    (Re::Cat(p2, c2), Re::Char(s)) => match &**p2 {
+                        Re::Char(pc) if class_of(c2, env).is_some() => Some((*pc, &**c2, s.to_string())),
+                        _ => None,
+                    },
+                    _ => None,
+                },
+                _ => None,
+            }
+        }
+        let prefixed: Vec<(char, &Re, String)> = rules.iter().filter_map(|r| if r.ctx.is_none() { pre(&r.re, &env) } else { None }).collect();
         if rules.len() > 1 && prefixed.len() == rules.len() {
-            for (i, (p, c)) in prefixed.iter().enumerate() {
+            for (i, (p, c, s)) in prefixed.iter().enumerate() {
                 let set = crate::iset::scalar_only(&class_of(c, &env).unwrap());
-                self.sweep_case(&p.to_string(), "", &set, &[], i);
+                self.sweep_case(&p.to_string(), s, &set, &[], i);
             }
             return;
         }
